@@ -15,7 +15,7 @@ import time
 from harness import core, server_tools as st
 
 PROP = 'C20'
-UNITS = ['Framing', 'Handshake']
+UNITS = ['Framing', 'Handshake', 'ServerLoop']
 PROOFS = ['theories/Server/Model.v', 'theories/Server/Handshake.v', 'theories/Framing/Proofs.v']
 HANG = 10.0
 
